@@ -206,6 +206,10 @@ pub trait DSet: Sized {
     fn morphism<T: DSet>(&self, other: &T, img0: usize)
         -> Option<Vec<usize>>
     {
+        if self.dim() != other.dim() {
+            return None;
+        }
+
         let mut m = vec![0; self.size() + 1];
         let mut queue = VecDeque::new();
 
